@@ -26,8 +26,8 @@ ASSUMPTIONS = ["tasks are atomic (no tool makes two tasks write one file; the ta
                ".npz compared member-wise (zip entries carry wall-clock timestamps)",
                "the pestle integral is compared bit for bit: the tool sums in submission order, so its value is "
                "schedule- and worker-count-independent to the last bit"]
-REQUIRED_OBS = {"m1_runs": 300, "set:m1_schedules": 150, "set:tools_m1": 14, "m2_runs": 20,
-                "set:tools_m2": 14, "histories": 3, "serial_compared": 4}
+REQUIRED_OBS = {"m1_runs": 300, "set:m1_schedules": 150, "set:tools_m1": 15, "m2_runs": 20,
+                "set:tools_m2": 15, "histories": 3, "serial_compared": 4}
 CHAIN = {"quick": 0, "thorough": 0}     # has its own multi-invocation histories
 TIMEOUT = {"quick": 900, "thorough": 3600}
 
